@@ -184,6 +184,26 @@ void vp_harness(void) {
 }
 #endif
 
+#ifdef VP_H_SEQ_ACCESSORS
+/* the three per-node counter accessors: each touches only its own counter of the addressed node */
+void vp_harness(void) {
+	make_state();
+	uint8_t addr[4] = {g_state->addr[0], g_state->addr[1], g_state->addr[2], 0}; g_key = addr;
+	uint8_t s0 = g_state->send_seqnum, r0 = g_state->receive_seqnum; int cmr0 = g_state->current_max_respond; _Bool st0 = g_state->stall;
+	unsigned which; VP_IN(unsigned, which); __CPROVER_assume(which < 3); uint8_t v; VP_IN(uint8_t, v);
+	uint8_t ret = 0;
+	if (which == 0) ret = bidib_node_state_get_and_incr_send_seqnum(addr);
+	else if (which == 1) ret = bidib_node_state_get_and_incr_receive_seqnum(addr);
+	else bidib_node_state_set_receive_seqnum(addr, v);
+	VP_COVER(which == 0 && s0 == 255); VP_COVER(which == 2 && v == 2 && s0 == 7); VP_COVER(which == 1);
+	uint8_t succ_s = s0 == 255 ? 1 : (uint8_t)(s0 + 1), succ_r = r0 == 255 ? 1 : (uint8_t)(r0 + 1);
+	__CPROVER_assert(g_state->send_seqnum == (which == 0 ? succ_s : s0), "C05.counters.downlink_number_advances_only_when_a_downlink_number_is_allocated (uplink resynchronisation never touches it)");
+	__CPROVER_assert(g_state->receive_seqnum == (which == 0 ? r0 : which == 1 ? succ_r : v), "C05.counters.uplink_expectation_changes_only_through_its_own_accessors");
+	if (which == 0) __CPROVER_assert(ret == s0, "C05.counters.allocated_number_is_the_current_one");
+	__CPROVER_assert(g_state->current_max_respond == cmr0 && g_state->stall == st0, "C05.counters.budget_and_stall_untouched");
+}
+#endif
+
 #ifdef VP_H_TRY_SEND
 void vp_harness(void) {
 	make_state();
